@@ -15,7 +15,8 @@ from .common import DIMSETS, sym_mesh
 
 META = dict(
     bounds=dict(
-        quick=dict(ndim="1..3", n="<=4 per axis (10 in the 1-d decimal configuration)", candidates="symbolic box corners on concrete meshes (unit, anisotropic decimal, nm scale)",
+        quick=dict(also="one Region object under two names / shared between two meshes, then in-place changes of a mesh and of the caller's Region",
+                   ndim="1..3", n="<=4 per axis (10 in the 1-d decimal configuration)", candidates="symbolic box corners on concrete meshes (unit, anisotropic decimal, nm scale)",
                    layouts="touching, overlapping, nested cell-aligned boxes", selections="plane / range with symbolic coordinates"),
         thorough=dict(ndim="1..4", n="<=4 per axis", candidates="as quick, more geometries", layouts="as quick", selections="as quick, 3-d"),
     ),
